@@ -1,4 +1,3 @@
-from math import ceil
 from typing import Optional
 from typing import Tuple
 from typing import cast
@@ -137,7 +136,7 @@ class BrownianStock(BasePrimary):
 
         spot = generate_geometric_brownian(
             n_paths=n_paths,
-            n_steps=ceil(time_horizon / self.dt + 1),
+            n_steps=self._get_n_steps(time_horizon),
             init_state=init_state,
             sigma=self.sigma,
             mu=self.mu,
